@@ -296,7 +296,7 @@ def replay(d):
     if c.theta == 0:
         return True
     d1 = integrate.quad(lambda t: t / np.expm1(t), 0, c.theta)[0] / c.theta
-    return not np.isclose(1 - 4 / c.theta * (1 - d1), tau, atol=2e-5, rtol=0)
+    return not np.isclose(1 - 4 / c.theta * (1 - d1), tau, atol=(5e-3 if abs(tau) < 0.05 else 2e-5), rtol=0)
 
 
 def concretise(fam, n, fl):
